@@ -217,14 +217,27 @@ func legGrammar(c *shardCtx, thorough bool) {
 // leg 3
 var byteAlphabet = []string{"a", "1", "'", "\"", "{", "}", "(", ")", ":", "!", "&", "-", ">", "[", "]", ",", "#", "\n", " ", "\x00", "\xff"}
 
-var byteContexts = [][2]string{{"", ""}, {"a{", "}"}, {"a{f(", ")->o}"}, {"a{k:", "}"}}
+// Syntactic contexts the byte strings are placed in. The production parser decides the FIRST section with
+// unbounded look-ahead (a syntax error anywhere inside it empties the whole tree), while later sections are
+// entered on one token of look-ahead and repaired by error recovery — only there does the tree walker meet
+// malformed sub-trees. Hence most contexts start with a valid section.
+var byteContexts = [][2]string{
+	{"", ""},                // bare
+	{"a{}a{", "}"},          // body of a later section
+	{"a{", "}"},             // body of the first section
+	{"a{}a{f(", ")->o}"},    // parameter list of a rule condition
+	{"a{}a{k:", "}"},        // declaration value
+	{"a{}a{f(x)->o(", ")}"}, // parameter list of an outbound function
+	{"a{}a{k:v[", "]}"},     // annotation
+	{"a{}a{f(x)->", "}"},    // outbound position
+}
 
 func legBytes(c *shardCtx, thorough bool) {
-	// quick: length<=4 bare and inside a section body, length<=3 inside a parameter list / declaration value;
-	// thorough: one more everywhere
-	maxLen := []int{4, 4, 3, 3}
+	// quick: length<=4 bare and inside a later section's body, length<=3 in the six inner contexts;
+	// thorough: length<=5 bare, <=4 in all other contexts
+	maxLen := []int{4, 4, 3, 3, 3, 3, 3, 3}
 	if thorough {
-		maxLen = []int{5, 4, 4, 4}
+		maxLen = []int{5, 4, 4, 4, 4, 4, 4, 4}
 	}
 	c.res.Extra["max_len"] = int64(maxLen[0])
 	c.res.Extra["max_len_inner_contexts"] = int64(maxLen[2])
